@@ -182,7 +182,7 @@ fn ref_verdict(unlocking: &[Tok], locking: &[Tok], c: &SpendCtx) -> Verdict {
     }
 }
 
-fn lib_verdict(tx: &RTx, idx: usize, value: u64, unlocking: &[u8], locking: &[u8]) -> Result<bool, String> {
+fn lib_verdict(tx: &RTx, idx: usize, value: u64, unlocking: &[u8], locking: &[u8], twin: bool) -> Result<bool, String> {
     let mut t = Transaction::new(tx.version, tx.locktime);
     for (k, i) in tx.inputs.iter().enumerate() {
         let script = if k == idx { Script::from_bytes(unlocking) } else { Script::from_bytes(&i.script) }.map_err(|e| format!("script: {}", e))?;
@@ -196,14 +196,31 @@ fn lib_verdict(tx: &RTx, idx: usize, value: u64, unlocking: &[u8], locking: &[u8
     for o in &tx.outputs {
         t.add_output(&TxOut::new(o.value, &Script::from_bytes(&o.script).map_err(|e| format!("out: {}", e))?));
     }
+    let verdict = |it: &mut Interpreter| match it.run() {
+        Ok(()) => it.state().stack.last().map(|x| cast_to_bool(x)).unwrap_or(false),
+        Err(_) => false,
+    };
     let mut it = match Interpreter::from_transaction(&t, idx) {
         Ok(i) => i,
         Err(_) => return Ok(false),
     };
-    match it.run() {
-        Ok(()) => Ok(it.state().stack.last().map(|x| cast_to_bool(x)).unwrap_or(false)),
-        Err(_) => Ok(false),
+    let v1 = verdict(&mut it);
+    if !twin {
+        return Ok(v1);
     }
+    // the script that is executed is the input's unlocking script followed by its locking script; the constructor that takes
+    // the transaction and the script elements explicitly must reach the same verdict
+    let fin = t.get_input(idx).ok_or("no input")?.get_finalised_script().map_err(|e| format!("get_finalised_script: {}", e))?;
+    let want: Vec<u8> = [unlocking, locking].concat();
+    if fin.to_bytes() != want {
+        return Err(format!("TxIn::get_finalised_script = {} but unlocking ++ locking = {}", hx(&fin.to_bytes()), hx(&want)));
+    }
+    let mut it2 = Interpreter::from_transaction_and_script_bits(t.clone(), idx, fin.to_script_bits());
+    let v2 = verdict(&mut it2);
+    if v1 != v2 {
+        return Err(format!("Interpreter::from_transaction accepts={} but from_transaction_and_script_bits on the same transaction and finalised script accepts={}", v1, v2));
+    }
+    Ok(v1)
 }
 
 fn push(x: &[u8]) -> Tok {
@@ -386,7 +403,7 @@ fn judge(acc: &mut Acc, case: &Case, sp: &Spend, what: &str, mutation: &str, mus
     acc.nontrivial_structural += 1;
     let fam = what.split('/').next().unwrap_or(what).split(' ').next().unwrap_or(what);
     let kindfam = if fam.contains("-of-") { "multisig" } else { fam };
-    match guard(|| lib_verdict(&sp.tx, sp.idx, sp.value, &ub, &lb)) {
+    match guard(|| lib_verdict(&sp.tx, sp.idx, sp.value, &ub, &lb, case.idx % 5 == 0)) {
         Ok(Ok(lib_ok)) => {
             acc.outcome(&[lib_ok as u8, (want == Verdict::Accept) as u8]);
             if must_accept && want != Verdict::Accept {
@@ -773,7 +790,7 @@ pub fn spaces(tier: Tier) -> Vec<Space> {
             let c2 = SpendCtx { tx: &sp.tx, idx: sp.idx, value: sp.value };
             let want = ref_verdict(&sp.unlocking, &sp.locking, &c2);
             let (ub, lb) = (rs::serialize(&sp.unlocking), rs::serialize(&sp.locking));
-            match guard(|| lib_verdict(&sp.tx, sp.idx, sp.value, &ub, &lb)) {
+            match guard(|| lib_verdict(&sp.tx, sp.idx, sp.value, &ub, &lb, case.idx % 5 == 0)) {
                 Ok(Ok(lib_ok)) => {
                     let agree = (want == Verdict::Accept) == lib_ok;
                     acc.outcome(&[7, lib_ok as u8, (want == Verdict::Accept) as u8]);
@@ -853,7 +870,7 @@ pub fn spaces(tier: Tier) -> Vec<Space> {
                     let want = ref_verdict(&sp.unlocking, &sp.locking, &c2);
                     acc.traces += 1;
                     acc.nontrivial_structural += 1;
-                    let lib_ok = guard(|| lib_verdict(&sp.tx, idx, value, &ub, &lb));
+                    let lib_ok = guard(|| lib_verdict(&sp.tx, idx, value, &ub, &lb, true));
                     acc.outcome(&[9, matches!(lib_ok, Ok(Ok(true))) as u8, (want == Verdict::Accept) as u8]);
                     if !matches!(lib_ok, Ok(Ok(true))) {
                         acc.violate("C15/library-assembled/kind=own-spend-rejected", case.idx, case.json(input.clone()), format!("interpreter verdict {:?}; reference verdict {:?}", lib_ok, want));
